@@ -33,7 +33,7 @@ TAG_FULL = 'mmc:_BaseMMC._fit_full'
 TAG_DIAG = 'mmc:_BaseMMC._fit_diag'
 INITS = ('identity', 'covariance', 'random', 'array', 'array*1e-3', 'array*1e3')
 MAX_ITERS = (1, 10, 100)
-TOLS = (1e-3, 1e-6, 1e-2)
+TOLS = (1e-3, 1e-6, 1e-2, 5e-2, 0.2)        # tol is the convergence threshold of the OUTER ascent; the 1% projection tolerance does not depend on it
 DIAG_C = (0.1, 1.0, 10.0)
 BIG_MAX_PROJ = 100000    # second attempt (max_iter <= 10 only, for time) when the first projection needs more than the default 10000
 
@@ -50,7 +50,7 @@ def specs(tier, seed):
     supervised = (k % 5 == 3)
     max_iter = MAX_ITERS[int(rng.randint(3))]
     spec = dict(index=k, d=d, init=init, diagonal=diagonal, cls='MMC_Supervised' if supervised else 'MMC', max_iter=max_iter,
-                tol=TOLS[int(rng.randint(3))], diagonal_c=DIAG_C[int(rng.randint(3))], random_state=int(rng.randint(1 << 30)),
+                tol=TOLS[int(rng.randint(3))] if k % 6 else TOLS[3 + (k // 6) % 2], diagonal_c=DIAG_C[int(rng.randint(3))], random_state=int(rng.randint(1 << 30)),
                 init_seed=int(rng.randint(1 << 30)))
     scale = (0.3, 1.0, 5.0)[int(rng.randint(3))]
     if supervised:
@@ -75,7 +75,9 @@ def init_argument(spec):
   from sklearn.datasets import make_spd_matrix
   if spec['init'].startswith('array'):
     A = make_spd_matrix(spec['d'], random_state=spec['init_seed'])
-    return A * {'array': 1.0, 'array*1e-3': 1e-3, 'array*1e3': 1e3}[spec['init']]
+    A = A * {'array': 1.0, 'array*1e-3': 1e-3, 'array*1e3': 1e3}[spec['init']]
+    # the same matrix in another memory layout for every other instance (column-major: np.asfortranarray / a transposed view are ndarrays too)
+    return np.asfortranarray(A) if spec['index'] % 2 else A
   return spec['init']
 
 
@@ -168,6 +170,12 @@ def check(spec):
         max_proj = BIG_MAX_PROJ      # the default was not large enough for this instance: give it more
         inp['max_proj'] = max_proj
         M1 = fit_marked(ml, spec, init, 1, inp, max_proj).get_mahalanobis_matrix()
+      if isinstance(init, np.ndarray) and not init.flags['C_CONTIGUOUS']:
+        # "array: used as given": the values matter, not the memory layout -- the row-major copy of the same matrix is the same input
+        Mc = fit_marked(ml, spec, np.ascontiguousarray(init), 1, inp, max_proj).get_mahalanobis_matrix()
+        if not np.allclose(M1, Mc, rtol=1e-7, atol=1e-10 * np.abs(A0).max()):
+          return 'full: checked (max_proj=%d)' % max_proj, bad('init-is-starting-point', 'max_iter=1: the column-major init array and its row-major copy give different '
+                                      'matrices (sum_S d^2 / t = %.6g vs %.6g)' % (sum_s(M1) / t, sum_s(Mc) / t))
       if unmoved(M1):
         return 'outside quantifier: first projection did not converge within max_proj', None
       results = [(1, M1)]
